@@ -299,7 +299,7 @@ async fn try_next(stream: &mut Stream) -> String {
 }
 
 async fn jitter(rng: &mut Rng) {
-    match rng.below(6) {
+    match rng.below(8) {
         0 => tokio::task::yield_now().await,
         1 => std::thread::yield_now(),
         2 => {
@@ -591,6 +591,38 @@ fn enumerate(len: usize, out: &mut Vec<String>) {
     rec(len, &mut Vec::new(), 0, out);
 }
 
+/// Every sequence of length `len` over {set a 1, set a 2, clear a, watch a, next 0, next 1}
+/// (streams are polled only once they exist), followed by `next 0 next 0 next 1 next 1 check a`.
+fn enumerate_one_name(len: usize, out: &mut Vec<String>) {
+    fn rec(len: usize, cur: &mut Vec<Op>, nwatch: usize, out: &mut Vec<String>) {
+        if cur.len() == len {
+            let mut ops = cur.clone();
+            for w in 0..nwatch.min(2) {
+                ops.push(Op::Next(w));
+                ops.push(Op::Next(w));
+            }
+            ops.push(Op::Check(0, "a".to_string()));
+            out.push(format!("seq {}", ops_tokens(&ops)));
+            return;
+        }
+        let a = "a".to_string();
+        let mut alphabet: Vec<Op> = vec![Op::Set(0, a.clone(), 1), Op::Set(0, a.clone(), 2), Op::Clear(0, a.clone())];
+        if nwatch < 2 {
+            alphabet.push(Op::Watch(0, a.clone()));
+        }
+        for w in 0..nwatch.min(2) {
+            alphabet.push(Op::Next(w));
+        }
+        for op in alphabet {
+            let nw = nwatch + matches!(op, Op::Watch(..)) as usize;
+            cur.push(op);
+            rec(len, cur, nw, out);
+            cur.pop();
+        }
+    }
+    rec(len, &mut Vec::new(), 0, out);
+}
+
 pub fn generate(tier: &str, rng: &mut Rng) -> Vec<String> {
     let thorough = tier == "thorough";
     let mut out: Vec<String> = Vec::new();
@@ -671,6 +703,13 @@ pub fn generate(tier: &str, rng: &mut Rng) -> Vec<String> {
         let mut ops = Vec::new();
         let mut nwatch = 0usize;
         let len = rng.range(6, 40) as usize;
+        if !n.is_empty() && rng.chance(9, 10) {
+            ops.push(Op::Set(0, n.clone(), rng.below(3) as u8));
+        }
+        if rng.chance(2, 3) {
+            nwatch += 1;
+            ops.push(Op::Watch(0, n.clone()));
+        }
         for _ in 0..len {
             let h = rng.below(2) as usize;
             let op = match rng.below(16) {
@@ -694,16 +733,23 @@ pub fn generate(tier: &str, rng: &mut Rng) -> Vec<String> {
         ops.push(Op::Check(0, n.clone()));
         out.push(format!("seq {}", ops_tokens(&ops)));
     }
-    // ---- small-scope exhaustive
+    // ---- small-scope exhaustive: two names, every sequence up to a length
     let maxlen = if thorough { 5 } else { 3 };
     for len in 1..=maxlen {
         enumerate(len, &mut out);
     }
+    // ---- small-scope exhaustive, deep: one name, two streams, every sequence up to a length,
+    // each followed by a drain of both streams and a Check (so every sequence also decides
+    // "once updates stop the stream delivers the latest status and then stays silent / is over")
+    let maxlen = if thorough { 8 } else { 5 };
+    for len in 0..=maxlen {
+        enumerate_one_name(len, &mut out);
+    }
     // ---- concurrent histories
     if thorough {
-        gen_conc(rng, 6000, &mut out);
+        gen_conc(rng, 40000, &mut out);
     } else {
-        gen_conc(rng, 150, &mut out);
+        gen_conc(rng, 600, &mut out);
     }
     out
 }
@@ -718,15 +764,16 @@ fn gen_conc(rng: &mut Rng, count: usize, out: &mut Vec<String>) {
         }
         let nthreads = rng.range(2, 4) as usize;
         let mut programs: Vec<String> = vec![ops_tokens(&setup)];
+        let big = rng.chance(1, 3);
         for t in 0..nthreads {
-            let len = rng.range(2, 5) as usize;
+            let len = if big { rng.range(4, 8) } else { rng.range(2, 5) } as usize;
             let mut ops: Vec<Op> = Vec::new();
             // task roles: 0 = writer, 1 = watcher, others drawn
             let role = if t == 0 { 0 } else if t == 1 { 1 } else { rng.below(4) };
             match role {
                 0 => {
                     for _ in 0..len {
-                        ops.push(match rng.below(10) {
+                        ops.push(match rng.below(12) {
                             0 => Op::Clear(0, n.clone()),
                             _ => Op::Set(0, n.clone(), rng.below(3) as u8),
                         });
@@ -744,8 +791,9 @@ fn gen_conc(rng: &mut Rng, count: usize, out: &mut Vec<String>) {
                 }
                 _ => {
                     for _ in 0..len {
-                        ops.push(match rng.below(4) {
+                        ops.push(match rng.below(5) {
                             0 => Op::Set(0, n.clone(), rng.below(3) as u8),
+                            1 => Op::Check(0, if n.is_empty() { "a".to_string() } else { "".to_string() }),
                             _ => Op::Check(0, n.clone()),
                         });
                     }
